@@ -12,7 +12,9 @@ use std::io::Cursor;
 use std::str::FromStr;
 use std::time::Instant;
 
-pub const CODEC_CLASSES: [&str; 14] = ["a", "0", "9", "-", "=", " ", "\t", "\n", "<", ">", "@", "[", "]", "é"];
+/// the last three are characters with irregular case mappings (an upper-case letter without a lower-case form, one that
+/// lower-cases to two characters, one that upper-cases to two): keyword parsers fold case
+pub const CODEC_CLASSES: [&str; 17] = ["a", "0", "9", "-", "=", " ", "\t", "\n", "<", ">", "@", "[", "]", "é", "\u{1d400}", "\u{130}", "ß"];
 
 #[derive(Clone, Copy, PartialEq, Debug)]
 pub enum Group {
